@@ -1,6 +1,7 @@
 package main
 
 import (
+	"go/token"
 	"go/types"
 
 	"golang.org/x/tools/go/ssa"
@@ -35,7 +36,7 @@ func acceptPoints(fn *ssa.Function) []AcceptPoint {
 			continue
 		}
 		e := ret.Results[ei]
-		if isErrorValue(e) {
+		if isErrorValue(e) || knownNonNil(b, e) {
 			continue
 		}
 		switch x := e.(type) {
@@ -173,4 +174,21 @@ func (c *LinCtx) Entails(f *Facts, goal Lin) bool {
 // EntailsEq: facts imply l == 0.
 func (c *LinCtx) EntailsEq(f *Facts, l Lin) bool {
 	return c.Entails(f, l) && c.Entails(f, l.scale(-1))
+}
+
+// knownNonNil: block b is only reached through the passing edge of `e != nil`.
+func knownNonNil(b *ssa.BasicBlock, e ssa.Value) bool {
+	for _, c := range DomConds(b) {
+		bo, truth, ok := condBinOp(c)
+		if !ok {
+			continue
+		}
+		if !(bo.Op == token.NEQ && truth || bo.Op == token.EQL && !truth) {
+			continue
+		}
+		if (bo.X == e && isNilConst(bo.Y)) || (bo.Y == e && isNilConst(bo.X)) {
+			return true
+		}
+	}
+	return false
 }
